@@ -499,7 +499,9 @@ func c16RunInserts(c *fw.Ctx, tg *c16Target, only int) {
 	}
 	do("Insert(nil dims, nil vals)", func() error { return tg.insert(ts, nil, nil) })
 	do("Insert(empty dims, empty vals)", func() error { return tg.insert(ts, map[string]interface{}{}, map[string]interface{}{}) })
-	do("Insert(zero time)", func() error { return tg.insert(time.Time{}, map[string]interface{}{"x": 1}, map[string]interface{}{"a": 1.0}) })
+	do("Insert(zero time)", func() error {
+		return tg.insert(time.Time{}, map[string]interface{}{"x": 1}, map[string]interface{}{"a": 1.0})
+	})
 	do("Insert(far future, key of its own)", func() error {
 		return tg.insert(time.Date(2200, 1, 1, 0, 0, 0, 0, time.UTC), map[string]interface{}{"x": 424242}, map[string]interface{}{"a": 1.0})
 	})
@@ -620,10 +622,10 @@ func c16RunWebInserts(c *fw.Ctx) {
 
 func init() {
 	fw.Register(&fw.Prop{
-		ID:        "C16",
-		Level:     "exploration",
-		NoThreads: true,
-		Rule: "SQL: 60 statements covering every statement kind and every SELECT construct the vendored grammar accepts but zenodb does not support; a 71-query corpus × all single-token deletions, duplications, adjacent swaps and truncation prefixes (tokenised by the harness); every function name known to sql.go (aggregates, IF, BOUNDED, PERCENTILE, SHIFT, CROSSHIFT, CROSSTAB(T), math, dim functions incl. LUA/HGET/SPLIT/ANY, pushdown P-prefix, an unknown name) × arity 0..6 × 7 argument kinds × SELECT/WHERE/GROUP BY/HAVING position; each through sql.Parse, sql.TableFor, planner.Plan (local and with QueryCluster over mock partitions) and DB.Query().Iterate on a small DB (planning only for functions needing redis/geo/ISP infrastructure), under recover() with a 20 s watchdog; inserts: the 26×26 product of Go/JSON value kinds as dimension and value through DB.Insert, nil/empty maps, extreme timestamps, every prefix and every single-byte corruption (3 values per byte) of valid dims and vals through InsertRaw, on a standalone DB and through the leader of a 2-partition cluster, plus 22 JSON bodies through the web insert endpoint; each payload is sandwiched between two valid marker points which must both be ingested exactly once (exact quiescence), i.e. the pipeline neither crashes nor stalls; non-trivial = mutated statement that still plans / payload executed",
+		ID:          "C16",
+		Level:       "exploration",
+		NoThreads:   true,
+		Rule:        "SQL: 60 statements covering every statement kind and every SELECT construct the vendored grammar accepts but zenodb does not support; a 71-query corpus × all single-token deletions, duplications, adjacent swaps and truncation prefixes (tokenised by the harness); every function name known to sql.go (aggregates, IF, BOUNDED, PERCENTILE, SHIFT, CROSSHIFT, CROSSTAB(T), math, dim functions incl. LUA/HGET/SPLIT/ANY, pushdown P-prefix, an unknown name) × arity 0..6 × 7 argument kinds × SELECT/WHERE/GROUP BY/HAVING position; each through sql.Parse, sql.TableFor, planner.Plan (local and with QueryCluster over mock partitions) and DB.Query().Iterate on a small DB (planning only for functions needing redis/geo/ISP infrastructure), under recover() with a 20 s watchdog; inserts: the 26×26 product of Go/JSON value kinds as dimension and value through DB.Insert, nil/empty maps, extreme timestamps, every prefix and every single-byte corruption (3 values per byte) of valid dims and vals through InsertRaw, on a standalone DB and through the leader of a 2-partition cluster, plus 22 JSON bodies through the web insert endpoint; each payload is sandwiched between two valid marker points which must both be ingested exactly once (exact quiescence), i.e. the pipeline neither crashes nor stalls; non-trivial = mutated statement that still plans / payload executed",
 		Assumptions: []string{"functions that need redis, geo or ISP infrastructure are parsed and planned but not executed"},
 		Shards:      func(tier string) int { return 12 },
 		Budget:      func(tier string) time.Duration { return 30 * time.Minute },
